@@ -175,9 +175,13 @@ func runX(t *testing.T, ch *vs.Choices, prop, tier string, render bool) *vs.RunO
 		return out
 	}
 	defer os.RemoveAll(dir)
-	if err := os.WriteFile(filepath.Join(dir, "Taskfile.yml"), []byte(yaml), 0o644); err != nil {
-		out.HarnessError = err.Error()
-		return out
+	for name, content := range p.Files() {
+		full := filepath.Join(dir, name)
+		_ = os.MkdirAll(filepath.Dir(full), 0o755)
+		if err := os.WriteFile(full, []byte(content), 0o644); err != nil {
+			out.HarnessError = err.Error()
+			return out
+		}
 	}
 	stdinPath := filepath.Join(dir, ".stdin")
 	_ = os.WriteFile(stdinPath, nil, 0o644)
@@ -211,7 +215,7 @@ func runX(t *testing.T, ch *vs.Choices, prop, tier string, render bool) *vs.RunO
 				if r.HasV {
 					v.Set("V", ast.Var{Value: r.V})
 				}
-				calls = append(calls, &task.Call{Task: p.Tasks[r.Target].Name, Vars: v})
+				calls = append(calls, &task.Call{Task: p.refName(-1, r.Target), Vars: v})
 			}
 			done <- e.Run(ctx, calls...)
 		}()
@@ -253,7 +257,7 @@ func runX(t *testing.T, ch *vs.Choices, prop, tier string, render bool) *vs.RunO
 		out.Violate("C18", "race|"+r.Sig, "data race between go-task frames:\n%s", clip(r.Text, 3000))
 	}
 	if render {
-		out.Rendered = map[string]any{"files": map[string]string{"Taskfile.yml": yaml}, "config": p.Config(), "strategy": out.Strategy}
+		out.Rendered = map[string]any{"files": p.Files(), "config": p.Config(), "strategy": out.Strategy}
 	}
 	return out
 }
